@@ -97,7 +97,7 @@ def run(ck):
     ck.sample({"history": [names[c - 1] for c in evs[7]["h"]], "twin": [names[c - 1] for c in evs[7]["twin"]],
                "outcomes": evs[7]["outcomes"], "probe0_A": evs[7]["pa"][0]})
     ck.cov["exhaustive"] = not quick
-    ck.cov["rule"] = ("fault histories enumerated by TLC (all sequences of length <= 3 over 5 good + 19 failing calls with >= 1 failing "
+    ck.cov["rule"] = ("fault histories enumerated by TLC (all sequences of length <= 3 over 5 good + 21 failing calls with >= 1 failing "
                       "call; length 3 sampled in quick; simulated length 7) x 18 probes, twin run without the failing calls. "
                       "non-trivial = distinct histories in which at least one call actually raised")
     ck.assumptions += ["harness/envcalls.py catalogue of failing calls covers: ill-typed construction, sort-breaking substitution at 5 "
